@@ -1256,11 +1256,22 @@ class Scene(Geometry3D):
 
             # Scale all transformations in the scene graph
             edge_data = result.graph.transforms.edge_data
+            # the translation of an edge is expressed in the frame of its
+            # parent, which may be rotated relative to the axes we are
+            # scaling along, so get the orientation of every parent first
+            rotation = {}
+            for u, _ in edge_data:
+                try:
+                    rotation[u] = self.graph.get(u)[0][:3, :3]
+                except BaseException:
+                    rotation[u] = np.eye(3)
             for uv in edge_data:
                 if "matrix" in edge_data[uv]:
                     props = edge_data[uv]
                     T = edge_data[uv]["matrix"].copy()
-                    T[:3, 3] *= scale
+                    # apply the scale to the translation in the base frame
+                    R = rotation[uv[0]]
+                    T[:3, 3] = np.linalg.solve(R, scale * np.dot(R, T[:3, 3]))
                     props["matrix"] = T
                     result.graph.update(frame_from=uv[0], frame_to=uv[1], **props)
             # Clear cache
